@@ -123,8 +123,9 @@ theorem ctorCore_wf (i : CtorIn) (b : Body) (h : ctorCore i = some b) : WF (bare
   rw [wf_iff]
   exact ⟨(ctorCore_ok h).1, by simp [bare], by simp [bare, attrsOk]⟩
 
-/-- the constructor called without derivatives (derivs = {} and no derivatives on a Qube argument) -/
-theorem ctor_wf_partial (i : CtorIn) (o : ObjDump) (hd : derivsGiven i = false) (h : ctor i = some o) : WF o = true := by
+/-- the constructor called without derivatives (derivs = {} and no derivatives on a Qube argument): a special case of
+    `ctor_wf` below that needs no hypothesis on the arguments at all -/
+theorem ctor_noderivs_wf (i : CtorIn) (o : ObjDump) (hd : derivsGiven i = false) (h : ctor i = some o) : WF o = true := by
   unfold ctor at h
   split at h
   · cases h
@@ -534,17 +535,345 @@ theorem withoutDeriv_wf (o : ObjDump) (key : String) (r : ObjDump) (ho : WF o = 
     · rename_i c hc
       exact deleteDeriv_wf c key true r (clone_wf o true [] c ho hc) h
 
-/-! ### every object produced by any list of operations -/
+theorem freshBody_ok {b : Body} {h : Bool} (hb : bodyOk b h = true) : bodyOk (freshBody b) h = true := by
+  simp only [bodyOk, bodyClauses, freshBody, List.all_cons, List.all_nil, Bool.and_eq_true, id] at hb ⊢
+  obtain ⟨c1, c2, c3, c4, c5, c6, c7, c8, c9, c10, c11⟩ := hb
+  refine ⟨c1, c2, ?_, c4, c5, c6, c7, c8, c9, c10, ?_⟩
+  · cases hm : b.mask <;> simp_all [maskOk]
+  · simp [roArraysOk]
 
-/-- the operations whose preservation theorem is proved in this file -/
-def Proved : Op → Bool
-  | .ctor _ _ _ derivs _ _ _ _ _ => (match derivs with | some [] => true | _ => false)
-  | .deleteDeriv .. => true
-  | .deleteDerivs .. => true
-  | .asReadonly _ => true
-  | .wod _ => true
-  | .deriv .. => true
-  | _ => false
+theorem copyOne_wf (x : ObjDump) (ro : Bool) (hx : WF x = true) : WF (copyOne x ro) = true := by
+  have hb := bodyOk_false_of ((wf_iff x).1 hx).1
+  unfold copyOne
+  split
+  · exact bare_wf _ hb
+  · split
+    · exact bare_wf _ (bodyReadonly_ok (freshBody_ok hb))
+    · exact bare_wf _ (freshBody_ok hb)
+
+/-- `copy(recursive, readonly)` (qube.py:1985-2030) -/
+theorem copy_wf (o : ObjDump) (recursive readonly : Bool) (r : ObjDump) (ho : WF o = true)
+    (h : copy o recursive readonly = some r) : WF r = true := by
+  unfold copy at h
+  split at h
+  · cases h; exact cloneBare_wf o ho
+  · split at h
+    · apply insertDerivs_ok_wf _ (copyOne o readonly) true r (copyOne_wf o readonly ho) ?_ h
+      intro kd hkd
+      simp only [List.mem_map] at hkd
+      obtain ⟨d, hdm, rfl⟩ := hkd
+      exact copyOne_wf _ _ ((wf_derivs ho).1 d hdm).2.2.2.2.2.2
+    · cases h; exact copyOne_wf o readonly ho
+
+/-- `as_float()` of any object (qube.py:2099-2130): through the constructor, derivatives re-inserted -/
+theorem asFloatObj_wf (o r : ObjDump) (ho : WF o = true) (h : asFloatObj o = some r) : WF r = true := by
+  unfold asFloatObj at h
+  split at h
+  · cases h; exact ho
+  · split at h
+    · cases h
+    · refine ctor_wf _ r ?_ ?_ h
+      · intro l hl kd hkd
+        simp only [Option.some.injEq] at hl
+        subst hl
+        exact ((wf_derivs ho).1 kd hkd).2.2.2.2.2.2
+      · intro a ha; cases ha
+
+theorem broadcastTo_wf (o r : ObjDump) (S : List Nat) (ho : WF o = true) (h : broadcastTo (cloneBare o) S = some r) :
+    WF r = true := by
+  have hb : bodyOk (cloneBare o).body false = true := bodyOk_false_of ((wf_iff o).1 ho).1
+  obtain ⟨-, -, -, b4, b5⟩ := broadcastTo_ok hb rfl h
+  rw [b5]; exact bare_wf _ b4
+
+theorem broadcastToObj_go_wf (S : List Nat) (l : List (String × ObjDump)) (obj r : ObjDump) (hobj : WF obj = true)
+    (hl : ∀ kd ∈ l, WF kd.2 = true) (h : broadcastToObj.go S obj l = some r) : WF r = true := by
+  induction l generalizing obj with
+  | nil => simp only [broadcastToObj.go, Option.some.injEq] at h; rw [← h]; exact hobj
+  | cons kd t ih =>
+    obtain ⟨k, d⟩ := kd
+    simp only [broadcastToObj.go] at h
+    split at h
+    · cases h
+    · rename_i d' hd'
+      split at h
+      · cases h
+      · rename_i obj' hobj'
+        have hd : WF d = true := hl (k, d) List.mem_cons_self
+        exact ih obj' (insertDeriv_wf obj d' k true obj' hobj (broadcastTo_wf d d' S hd hd') hobj')
+          (fun x hx => hl x (List.mem_cons_of_mem _ hx)) h
+
+/-- `broadcast_to(shape)` of any object (qube.py:4532-4630) -/
+theorem broadcastToObj_wf (o r : ObjDump) (S : List Nat) (ho : WF o = true) (h : broadcastToObj o S = some r) :
+    WF r = true := by
+  unfold broadcastToObj at h
+  split at h
+  · cases h; exact ho
+  · split at h
+    · cases h
+    · rename_i base hbase
+      exact broadcastToObj_go_wf S o.derivs base r (broadcastTo_wf o base S ho hbase)
+        (fun kd hkd => ((wf_derivs ho).1 kd hkd).2.2.2.2.2.2) h
+
+theorem rebuildBody_ok {b : Body} {h : Bool} (c : Collapse) (hb : bodyOk b h = true) :
+    bodyOk (rebuildBody b c) h = true := by
+  simp only [bodyOk, bodyClauses, rebuildBody, List.all_cons, List.all_nil, Bool.and_eq_true, id] at hb ⊢
+  obtain ⟨c1, c2, c3, c4, c5, c6, c7, c8, c9, c10, c11⟩ := hb
+  refine ⟨c1, c2, ?_, c4, c5, c6, c7, c8, c9, c10, ?_⟩
+  · cases c with
+    | to x => simp [rebuildMask, maskOk]
+    | keep => cases hm : b.mask <;> simp_all [rebuildMask, maskOk]
+  · unfold roArraysOk
+    cases hr : b.readonly <;> cases hv : b.varr <;> cases c <;> cases hm : b.mask <;> simp [rebuildMask]
+
+/-- replacing the WRITEABLE flag of a mask array by one that is off whenever the object is read-only -/
+theorem maskFlag_ok {b : Body} {h : Bool} (s : List Nat) (k w w' : Bool) (hb : bodyOk b h = true)
+    (hm : b.mask = .array s k w) (hw : b.readonly = true → w' = false) :
+    bodyOk { b with mask := .array s k w' } h = true := by
+  simp only [bodyOk, bodyClauses, List.all_cons, List.all_nil, Bool.and_eq_true, id] at hb ⊢
+  obtain ⟨c1, c2, c3, c4, c5, c6, c7, c8, c9, c10, c11⟩ := hb
+  refine ⟨c1, c2, ?_, c4, c5, c6, c7, c8, c9, c10, ?_⟩
+  · simpa [hm, maskOk] using c3
+  · unfold roArraysOk at c11 ⊢
+    cases hr : b.readonly
+    · simp
+    · have hw' := hw hr
+      subst hw'
+      cases hv : b.varr <;> cases hvw : b.vwritable <;> simp_all
+
+/-- `pickle.loads(pickle.dumps(obj))` (pickler.py:945-1100, repaired form of `__setstate__`), whatever the mask
+    contents make `__getstate__` do to the mask representations -/
+theorem setstate_wf (o r : ObjDump) (c : Collapse) (dc : List (String × Collapse)) (ho : WF o = true)
+    (h : setstate o c dc = some r) : WF r = true := by
+  obtain ⟨hb, hds, -⟩ := (wf_iff o).1 ho
+  have hb0 : bodyOk (rebuildBody o.body c) false = true := rebuildBody_ok c (bodyOk_false_of hb)
+  unfold setstate at h
+  simp only [] at h
+  -- the parent after the derivatives have frozen the shared mask
+  have hparent : bodyOk (frozenByDerivs (rebuildBody o.body c) o.derivs) false = true := by
+    unfold frozenByDerivs
+    split
+    · rename_i s k w hm
+      refine maskFlag_ok s k w _ hb0 hm ?_
+      intro hr
+      have : w = false := by
+        have := hb0
+        simp only [bodyOk, bodyClauses, List.all_cons, List.all_nil, Bool.and_eq_true, id] at this
+        have h11 := this.2.2.2.2.2.2.2.2.2.2.1
+        unfold roArraysOk at h11
+        simp only [hr, hm, Bool.not_true, Bool.false_or, Bool.and_eq_true, Bool.not_eq_true'] at h11
+        exact h11.2
+      simp [this]
+    · exact hb0
+  have hPshape : (frozenByDerivs (rebuildBody o.body c) o.derivs).shape = o.body.shape
+      ∧ (∀ s k w, (frozenByDerivs (rebuildBody o.body c) o.derivs).mask = .array s k w →
+      s = o.body.shape ∧ k = true ∧ (∀ d ∈ o.derivs, d.2.body.readonly = true → w = false)) := by
+    unfold frozenByDerivs
+    split
+    · rename_i s k w hm
+      refine ⟨rfl, ?_⟩
+      intro s' k' w' he
+      simp only [MaskD.array.injEq] at he
+      obtain ⟨rfl, rfl, rfl⟩ := he
+      have hm3 : maskOk (rebuildBody o.body c).mask (rebuildBody o.body c).shape = true := by
+        have := hb0
+        simp only [bodyOk, bodyClauses, List.all_cons, List.all_nil, Bool.and_eq_true, id] at this
+        exact this.2.2.1
+      rw [hm] at hm3
+      simp only [maskOk, Bool.and_eq_true, beq_iff_eq] at hm3
+      refine ⟨hm3.2, hm3.1, ?_⟩
+      intro d hd hr
+      have : o.derivs.any (fun d => d.2.body.readonly) = true := List.any_eq_true.2 ⟨d, hd, hr⟩
+      simp [this]
+    · rename_i hne
+      refine ⟨rfl, ?_⟩
+      intro s k w he
+      exact absurd he (hne s k w)
+  generalize frozenByDerivs (rebuildBody o.body c) o.derivs = P at h hparent hPshape
+  apply insertDerivs_ok_wf _ (bare P) true r (bare_wf _ hparent) ?_ h
+  intro kd hkd
+  simp only [List.mem_map] at hkd
+  obtain ⟨d, hdm, rfl⟩ := hkd
+  have hdw := (wf_derivs ho).1 d hdm
+  have hdb : bodyOk d.2.body false = true := bodyOk_false_of ((wf_iff d.2).1 hdw.2.2.2.2.2.2).1
+  unfold rebuildDeriv
+  split
+  · rename_i s k w hm
+    obtain ⟨e1, e2, e3⟩ := hPshape.2 s k w hm
+    apply bare_wf
+    have hk := rebuildBody_ok .keep hdb
+    -- the derivative takes the parent's mask array
+    simp only [bodyOk, bodyClauses, List.all_cons, List.all_nil, Bool.and_eq_true, id] at hk ⊢
+    obtain ⟨c1, c2, c3, c4, c5, c6, c7, c8, c9, c10, c11⟩ := hk
+    refine ⟨c1, c2, ?_, c4, c5, c6, c7, c8, c9, c10, ?_⟩
+    · simp only [maskOk, rebuildBody, Bool.and_eq_true, beq_iff_eq]
+      exact ⟨e2, by rw [e1, hdw.2.1]⟩
+    · unfold roArraysOk at c11 ⊢
+      cases hr : d.2.body.readonly
+      · simp [rebuildBody, hr]
+      · have hw : w = false := e3 d hdm hr
+        subst hw
+        simp only [rebuildBody, hr, Bool.not_true, Bool.false_or, Bool.and_eq_true, Bool.not_eq_true'] at c11 ⊢
+        exact ⟨⟨c11.1.1, trivial⟩, c11.2⟩
+  · exact bare_wf _ (rebuildBody_ok _ hdb)
+
+/-- a change of the body that keeps shape, numerator and the derivative dictionary keeps the object well-formed
+    provided the new body is fine by itself and is read-only only if every derivative is -/
+theorem rebody_wf (o : ObjDump) (b : Body) (ho : WF o = true)
+    (hb : bodyOk b (!o.derivs.isEmpty) = true) (hs : b.shape = o.body.shape) (hn : b.numer = o.body.numer)
+    (hr : b.readonly = true → ∀ d ∈ o.derivs, d.2.body.readonly = true) :
+    WF { o with body := b } = true := by
+  obtain ⟨-, hds, ha⟩ := (wf_iff o).1 ho
+  rw [wf_iff]
+  refine ⟨hb, ?_, ha⟩
+  intro d hd
+  have := hds d hd
+  simp only [derivOk, Bool.and_eq_true, beq_iff_eq, List.isEmpty_iff, Bool.or_eq_true, Bool.not_eq_true'] at this ⊢
+  obtain ⟨⟨⟨⟨⟨⟨a, b'⟩, c⟩, e⟩, f⟩, -⟩, k⟩ := this
+  refine ⟨⟨⟨⟨⟨⟨a, by rw [b', hs]⟩, by rw [c, hn]⟩, e⟩, f⟩, ?_⟩, k⟩
+  cases hro : b.readonly
+  · exact Or.inl rfl
+  · exact Or.inr (hr hro d hd)
+
+theorem norm_facts (v : RawArr) :
+    (v.norm.isArr = true ∨ v.norm.shape = []) ∧ v.norm.kind = v.kind
+    ∧ (v.norm.isArr && !v.norm.writable) = (v.isArr && !v.writable) := by
+  unfold RawArr.norm; split <;> simp_all
+
+def setBody (b : Body) (v : RawArr) (m : MaskD) : Body :=
+  { b with varr := v.isArr, vwritable := v.writable, kind := v.kind, dkind := v.kind,
+           readonly := v.isArr && !v.writable, mask := m }
+
+/-- `_set_values_(values, mask)` (qube.py:1104-1177) under the callers' obligations `setterGuard` -/
+theorem setValues_wf (o r : ObjDump) (v : RawArr) (mask : Option MaskD) (ho : WF o = true)
+    (hg : setterGuard o v mask = true) (h : setValues o v mask = some r) : WF r = true := by
+  obtain ⟨n1, n2, n3⟩ := norm_facts v
+  obtain ⟨hb, -, -⟩ := (wf_iff o).1 ho
+  simp only [setterGuard, Bool.and_eq_true, Bool.or_eq_true, Bool.not_eq_true', List.all_eq_true] at hg
+  obtain ⟨⟨g1, g2⟩, g3⟩ := hg
+  unfold setValues at h
+  simp only [] at h
+  by_cases hsh : (v.norm.shape != o.body.vshape) = true
+  · rw [if_pos hsh] at h; cases h
+  rw [if_neg hsh] at h
+  by_cases hbad : badMaskShape mask o.body.shape = true
+  · rw [if_pos hbad] at h; cases h
+  rw [if_neg hbad] at h
+  by_cases hko : (v.norm.kind == Kind.other) = true
+  · rw [if_pos hko] at h; cases h
+  rw [if_neg hko] at h
+  cases h
+  have hsh' : v.norm.shape = o.body.vshape := by simpa using hsh
+  refine rebody_wf o (setBody o.body v.norm (setterMask (v.norm.isArr && !v.norm.writable) (newMask mask o.body.mask)))
+    ho ?_ rfl rfl ?_
+  · -- the new body
+    simp only [bodyOk, bodyClauses, setBody, List.all_cons, List.all_nil, Bool.and_eq_true, id] at hb ⊢
+    obtain ⟨c1, c2, c3, c4, c5, c6, c7, c8, c9, c10, c11⟩ := hb
+    simp only [Bool.or_eq_true, List.isEmpty_iff, beq_iff_eq] at c1 c2 c4 c5 c6 c9 c10 ⊢
+    refine ⟨⟨c1.1, ?_⟩, c2, ?_, c4, c5, ⟨c6.1, trivial⟩, c7, by rw [n2]; exact g1, c9, c10, ?_⟩
+    · rcases n1 with h | h
+      · exact Or.inl h
+      · exact Or.inr (hsh' ▸ h)
+    · -- mask
+      cases mask with
+      | none =>
+        simp only [newMask]
+        cases hm : o.body.mask with
+        | scalar x => simp [setterMask, maskOk]
+        | npbool x => rw [hm] at c3; simp [maskOk] at c3
+        | other => rw [hm] at c3; simp [maskOk] at c3
+        | array s k w =>
+          rw [hm] at c3
+          simp only [maskOk, Bool.and_eq_true, beq_iff_eq] at c3
+          simp only [setterMask]
+          split <;> (try split) <;> simp [maskOk, c3.1, c3.2]
+      | some m =>
+        cases m with
+        | scalar x => simp [newMask, setterMask, maskOk]
+        | npbool x => simp at g2
+        | other => simp at g2
+        | array s k w =>
+          simp only [newMask, setterMask]
+          have hk : k = true := by simpa using g2
+          have hs : s = o.body.shape := by simpa [badMaskShape] using hbad
+          split <;> (try split) <;> simp [maskOk, hk, hs]
+    · -- read-only flag and arrays
+      unfold roArraysOk
+      simp only [setBody]
+      cases hro : (v.norm.isArr && !v.norm.writable)
+      · simp
+      · have hva : v.norm.isArr = true ∧ v.norm.writable = false := by simpa using hro
+        have hro' : (v.isArr && !v.writable) = true := by rw [← n3]; exact hro
+        simp only [hva.1, hva.2, Bool.not_true, Bool.false_or, Bool.not_false, Bool.true_and, Bool.or_true]
+        rcases g3 with g3 | g3
+        · rw [hro'] at g3; cases g3
+        · have g4 := g3.2
+          cases hm : newMask mask o.body.mask with
+          | array s k w =>
+            rw [hm] at g4
+            have : s.isEmpty = false := by simpa using g4
+            simp [setterMask, this]
+          | scalar x => simp [setterMask]
+          | npbool x => simp [setterMask]
+          | other => simp [setterMask]
+  · intro hro d hd
+    simp only [setBody] at hro
+    rw [n3] at hro
+    rcases g3 with g3 | g3
+    · rw [hro] at g3; cases g3
+    · exact g3.1 d hd
+
+def maskFrozen : MaskD → Bool
+  | .array _ _ w => !w
+  | _ => true
+
+theorem remask_wf (o : ObjDump) (m : MaskD) (ho : WF o = true) (hm : maskOk m o.body.shape = true)
+    (hro : o.body.readonly = true → maskFrozen m = true) :
+    WF { o with body := { o.body with mask := m } } = true := by
+  obtain ⟨hb, -, -⟩ := (wf_iff o).1 ho
+  refine rebody_wf o _ ho ?_ rfl rfl ?_
+  · simp only [bodyOk, bodyClauses, List.all_cons, List.all_nil, Bool.and_eq_true, id] at hb ⊢
+    obtain ⟨c1, c2, c3, c4, c5, c6, c7, c8, c9, c10, c11⟩ := hb
+    refine ⟨c1, c2, hm, c4, c5, c6, c7, c8, c9, c10, ?_⟩
+    unfold roArraysOk at c11 ⊢
+    cases hr : o.body.readonly
+    · simp
+    · have hf := hro hr
+      simp only [hr, Bool.not_true, Bool.false_or, Bool.and_eq_true] at c11 ⊢
+      refine ⟨⟨c11.1.1, ?_⟩, c11.2⟩
+      cases m <;> simp_all [maskFrozen]
+  · intro hr d hd
+    exact ((wf_derivs ho).1 d hd).2.2.2.2.2.1 hr
+
+/-- `_set_mask_(mask)` (qube.py:1187-1223): no obligation on the caller -/
+theorem setMask_wf (o r : ObjDump) (mask : RawMask) (ho : WF o = true) (h : setMask o mask = some r) : WF r = true := by
+  unfold setMask at h
+  split at h
+  · cases h
+  rename_i m hm
+  simp only [] at h
+  cases m with
+  | scalar x =>
+    simp only [Option.some.injEq] at h
+    subst h
+    exact remask_wf o (.scalar x) ho rfl (fun _ => rfl)
+  | npbool x => cases h
+  | other => cases h
+  | array s k w =>
+    simp only [] at h
+    by_cases hs : (s == o.body.shape) = true
+    · rw [if_pos hs] at h
+      simp only [Option.some.injEq] at h
+      subst h
+      have hs' : s = o.body.shape := by simpa using hs
+      have e : (if o.body.readonly = true then MaskD.array s true false else MaskD.array s true true)
+          = MaskD.array s true (!o.body.readonly) := by cases o.body.readonly <;> rfl
+      simp only [e]
+      exact remask_wf o (.array s true (!o.body.readonly)) ho (by simp [maskOk, hs'])
+        (by intro hr; simp [maskFrozen, hr])
+    · rw [if_neg hs] at h
+      cases h
+
+/-! ### every object produced by any list of operations -/
 
 def good : Effect → Prop
   | .none => True
@@ -561,31 +890,76 @@ theorem ofPush_good (r : R ObjDump) (h : ∀ o, r = some o → WF o = true) : go
   | none => trivial
   | some o => exact h o rfl
 
-theorem resolveCtor_noderivs {pool cls arg mask units nrank drank exmpl dflt ci}
-    (h : resolveCtor pool cls arg mask (some []) units nrank drank exmpl dflt = some ci) : derivsGiven ci = false := by
+theorem resolveDerivs_mem (pool : Pool) (l : List (String × Nat)) (r : List (String × ObjDump))
+    (h : resolveDerivs pool l = some r) : ∀ kd ∈ r, ∃ i, pool.get? i = some kd.2 := by
+  induction l generalizing r with
+  | nil => simp only [resolveDerivs, Option.some.injEq] at h; subst h; intro kd hkd; cases hkd
+  | cons x t ih =>
+    obtain ⟨k, i⟩ := x
+    simp only [resolveDerivs] at h
+    split at h
+    · rename_i o r' ho hr'
+      cases h
+      intro kd hkd
+      rcases List.mem_cons.1 hkd with e | e
+      · subst e; exact ⟨i, ho⟩
+      · exact ih r' hr' kd e
+    · cases h
+
+theorem resolveCtor_wf {pool : Pool} {cls arg mask derivs units nrank drank exmpl dflt} {ci : CtorIn}
+    (hget : ∀ i o, pool.get? i = some o → WF o = true)
+    (h : resolveCtor pool cls arg mask derivs units nrank drank exmpl dflt = some ci) :
+    (∀ l, ci.derivs = some l → ∀ kd ∈ l, WF kd.2 = true) ∧ (∀ a, ci.arg = .qube a → WF a = true) := by
   unfold resolveCtor at h
-  simp only [resolveDerivs, Option.map_some] at h
+  simp only [] at h
   split at h
-  · rename_i h1 h2 h3
-    cases h2
+  · rename_i a d e h1 h2 h3
     cases h
-    rfl
+    constructor
+    · intro l hl kd hkd
+      simp only at hl
+      subst hl
+      cases derivs with
+      | none => simp at h2
+      | some dl =>
+        simp only [Option.map_eq_some_iff] at h2
+        obtain ⟨r, hr, hr'⟩ := h2
+        simp only [Option.some.injEq] at hr'
+        subst hr'
+        obtain ⟨i, hi⟩ := resolveDerivs_mem pool dl r hr kd hkd
+        exact hget i _ hi
+    · intro q hq
+      simp only at hq
+      subst hq
+      cases arg with
+      | val x => simp at h1
+      | bad => simp at h1
+      | obj i =>
+        simp only [Option.map_eq_some_iff] at h1
+        obtain ⟨o, ho, ho'⟩ := h1
+        simp only [RawArg.qube.injEq] at ho'
+        subst ho'
+        exact hget i _ ho
   · cases h
 
-theorem effect_good (pool : Pool) (op : Op) (hop : Proved op = true) (hp : ∀ o ∈ pool, WF o = true) :
-    good (effect pool op) := by
+/-- every operation of the model hands back / leaves behind a well-formed object, or raises -/
+theorem effect_good (pool : Pool) (op : Op) (hp : ∀ o ∈ pool, WF o = true) : good (effect pool op) := by
   have hget : ∀ i o, pool.get? i = some o → WF o = true := by
     intro i o h; exact hp o (List.mem_of_getElem? h)
   cases op with
   | ctor cls arg mask derivs units nrank drank exmpl dflt =>
-    simp only [Proved] at hop
-    split at hop
-    · simp only [effect]
-      split
-      · rename_i ci hci
-        exact ofPush_good _ fun o ho => ctor_wf_partial ci o (resolveCtor_noderivs hci) ho
-      · trivial
-    · cases hop
+    simp only [effect]
+    split
+    · rename_i ci hci
+      obtain ⟨w1, w2⟩ := resolveCtor_wf hget hci
+      exact ofPush_good _ fun o ho => ctor_wf ci o w1 w2 ho
+    · trivial
+  | insertDeriv p key d ov =>
+    simp only [effect]
+    split
+    · rename_i po dn hpo hdn
+      exact ofSet_good _ _ fun r hr => insertDeriv_wf po dn key ov r (hget p po hpo) (hget d dn hdn) hr
+    · trivial
   | deleteDeriv p key ov =>
     simp only [effect]
     cases hg : pool.get? p with
@@ -601,21 +975,67 @@ theorem effect_good (pool : Pool) (op : Op) (hop : Proved op = true) (hp : ∀ o
     cases hg : pool.get? p with
     | none => trivial
     | some o => exact asReadonly_wf o (hget p o hg)
+  | setValues p v mask =>
+    simp only [effect]
+    cases hg : pool.get? p with
+    | none => trivial
+    | some o =>
+      simp only []
+      split
+      · rename_i hguard
+        exact ofSet_good _ _ fun r hr => setValues_wf o r v mask (hget p o hg) hguard hr
+      · trivial
+  | setMask p mask =>
+    simp only [effect]
+    cases hg : pool.get? p with
+    | none => trivial
+    | some o => exact ofSet_good _ _ fun r hr => setMask_wf o r mask (hget p o hg) hr
+  | clone p recursive preserve =>
+    simp only [effect]
+    cases hg : pool.get? p with
+    | none => trivial
+    | some o => exact ofPush_good _ fun r hr => clone_wf o recursive preserve r (hget p o hg) hr
   | wod p =>
     simp only [effect]
     cases hg : pool.get? p with
     | none => trivial
     | some o => exact wod_wf o (hget p o hg)
+  | withoutDeriv p key =>
+    simp only [effect]
+    cases hg : pool.get? p with
+    | none => trivial
+    | some o => exact ofPush_good _ fun r hr => withoutDeriv_wf o key r (hget p o hg) hr
+  | copy p recursive readonly =>
+    simp only [effect]
+    cases hg : pool.get? p with
+    | none => trivial
+    | some o => exact ofPush_good _ fun r hr => copy_wf o recursive readonly r (hget p o hg) hr
+  | asFloat p =>
+    simp only [effect]
+    cases hg : pool.get? p with
+    | none => trivial
+    | some o => exact ofPush_good _ fun r hr => asFloatObj_wf o r (hget p o hg) hr
+  | broadcastTo p shape =>
+    simp only [effect]
+    cases hg : pool.get? p with
+    | none => trivial
+    | some o => exact ofPush_good _ fun r hr => broadcastToObj_wf o r shape (hget p o hg) hr
+  | pickle p c dc =>
+    simp only [effect]
+    cases hg : pool.get? p with
+    | none => trivial
+    | some o => exact ofPush_good _ fun r hr => setstate_wf o r c dc (hget p o hg) hr
   | deriv p key =>
     simp only [effect]
     cases hg : pool.get? p with
     | none => trivial
     | some o => exact ofPush_good _ fun d hd => deriv_wf o key d (hget p o hg) hd
-  | _ => cases hop
 
-theorem step_wf (pool : Pool) (op : Op) (hop : Proved op = true) (hp : ∀ o ∈ pool, WF o = true) :
+/-- `op_preserves_wf`: one call — ANY of the 16 modelled operations with ANY arguments, applied to a pool of
+    well-formed objects — leaves a pool of well-formed objects -/
+theorem step_wf (pool : Pool) (op : Op) (hp : ∀ o ∈ pool, WF o = true) :
     ∀ o ∈ step pool op, WF o = true := by
-  have hg := effect_good pool op hop hp
+  have hg := effect_good pool op hp
   unfold step
   cases he : effect pool op with
   | none => exact hp
@@ -632,19 +1052,21 @@ theorem step_wf (pool : Pool) (op : Op) (hop : Proved op = true) (hp : ∀ o ∈
     · exact hp x h
     · simp only [List.mem_singleton] at h; rw [h]; exact hg
 
-/-- `reachable_wf` for the proved operations: for EVERY list of operations (any length, any order, any arguments,
-    applied to any pool of well-formed start objects) every object of the final pool is well-formed. -/
-theorem reachable_wf_partial (ops : List Op) (pool : Pool) (hops : ∀ op ∈ ops, Proved op = true)
-    (hp : ∀ o ∈ pool, WF o = true) : ∀ o ∈ run pool ops, WF o = true := by
+/-- `reachable_wf`: for EVERY list of operations (any length, any order, any arguments: constructor calls with
+    arbitrary raw arrays, insert_deriv, delete_deriv(s), as_readonly, the setters under the callers' obligations,
+    clone, wod, without_deriv, copy, as_float, broadcast_to, pickling, reading a derivative), applied to any pool of
+    well-formed start objects, every object of the final pool is well-formed.  Induction over the list: unbounded. -/
+theorem reachable_wf (ops : List Op) (pool : Pool) (hp : ∀ o ∈ pool, WF o = true) :
+    ∀ o ∈ run pool ops, WF o = true := by
   induction ops generalizing pool with
   | nil => exact hp
   | cons op t ih =>
     simp only [run, List.foldl_cons]
-    exact ih (step pool op) (fun o ho => hops o (List.mem_cons_of_mem _ ho))
-      (step_wf pool op (hops op List.mem_cons_self) hp)
--- FULL (reachable_wf): the same without the hypothesis `hops` (all 15 operations of `Op`; `setValues` under the
--- `setterGuard` built into `effect`).  Not proved: insertDeriv in general, clone, withoutDeriv, copy, asFloat,
--- broadcastTo, setValues, setMask, pickle — all monitored by the one-step correspondence and the sweep.
+    exact ih (step pool op) (step_wf pool op hp)
+
+/-- in particular for programs that start from nothing: every object comes from the constructor -/
+theorem reachable_from_ctor_wf (ops : List Op) : ∀ o ∈ run [] ops, WF o = true :=
+  reachable_wf ops [] (fun o ho => by cases ho)
 
 def startObj : ObjDump :=
   bare { cls := .scalar, kind := .float, varr := true, vshape := [2], vwritable := true,
@@ -652,8 +1074,15 @@ def startObj : ObjDump :=
          size := 2, isize := 1, nsize := 1, dsize := 1, dshape := [], dkind := .float, units := false,
          readonly := false, complete := true }
 
-example : (run [startObj]
-    [.ctor .vector3 (.val ⟨true, [2, 3], .float, true⟩) (.bool false) (some []) .none none none none none,
-     .asReadonly 0, .wod 1, .deleteDerivs 1 true]).all WF = true := by decide
+/-- a non-trivial history: a Vector3 with a derivative given as an int Scalar-shaped Vector3 of another shape
+    (converted, broadcast), frozen, cloned, pickled, one derivative removed -/
+def history : List Op :=
+  [.ctor .vector3 (.val ⟨true, [2, 3], .float, true⟩) (.arr [2] true true) (some []) .none none none none none,
+   .ctor .vector3 (.val ⟨true, [1, 3], .float, true⟩) (.bool false) (some []) .none none none none none,
+   .insertDeriv 1 "t" 2 true, .insertDeriv 1 "x" 1 true, .asReadonly 1, .clone 1 true [], .withoutDeriv 3 "t",
+   .pickle 1 .keep [], .copy 1 true false, .broadcastTo 0 [3, 2], .setMask 0 (.arr [2] true true),
+   .setValues 0 ⟨true, [2], .int, false⟩ none, .asFloat 0, .deriv 1 "t", .deleteDerivs 1 true, .wod 3]
+
+example : (run [startObj] history).length = 11 ∧ (run [startObj] history).all WF = true := by decide
 
 end PMV.C05
